@@ -132,6 +132,12 @@ func runC20Free(cc *c20FreeCase, keep bool) c20FreeResult { //nolint:cyclop,goco
 		for dl := time.Now().Add(2 * time.Second); r.rec.count("ph.start") == 0 && time.Now().Before(dl); {
 			time.Sleep(50 * time.Microsecond)
 		}
+		if ce == nil && se == nil && !r.waitQuiet(2*time.Second) { // both machines parked: their state may be read below
+			r.closeAll()
+			res.Lab = "not quiescent after the handshake (ticket withheld)"
+
+			return res
+		}
 	} else {
 		ce, se = r.handshakeLossless(5 * time.Second)
 	}
